@@ -2,6 +2,8 @@ import Dcg.Py.Lex
 import Dcg.Py.Repr
 import Dcg.Proofs.Repr
 import Dcg.Proofs.Escape
+import Dcg.Py.Chars
+import Dcg.Gen.Printable
 /-
 `model/pydantic/types.py pattern_literal` as a FUNCTION TO TEXT (C10 models the choice of the
 branch, `patternRawOK`; C01 needs the text that is written into `constr(regex=…)` /
@@ -13,11 +15,12 @@ Core Lean only (the driver links this file).
 namespace Dcg.Proofs.PatternLit
 open Dcg.Py.Lex Dcg.Py.Repr Dcg.Proofs.Repr Dcg.Proofs.Escape
 
-/-- the source text `pattern_literal(p)` returns: `r'` p `'` when `p` is raw-safe for the single
-quote (no single quote, no control character, no dangling backslash), else `repr(p)`.
+/-- the source text `pattern_literal(p)` returns: `r'` p `'` when `p` has no single quote, no
+dangling backslash and only printable characters (`pr` = `str.isprintable` of one character, the
+same parameter `repr` takes), else `repr(p)`.
 Compared character by character with the real function by the campaign `patlit.text`. -/
 def patternLiteral (pr : Char → Bool) (p : List Char) : List Char :=
-  if patternRawOK p then 'r' :: '\'' :: p ++ ['\''] else reprStr pr p
+  if patternRawOK pr p then 'r' :: '\'' :: p ++ ['\''] else reprStr pr p
 
 /-- ONE string-literal token at the head of the text, as the tokenizer reads it where an expression
 is expected: an optional `r` prefix, then a short literal in either quote (cooked: also the
@@ -131,13 +134,13 @@ theorem reprQuote_both (p : List Char) (h2 : '"' ∈ p) : reprQuote p = '\'' := 
   rw [this]; simp
 
 /-- the written literal is one token that evaluates to the pattern, both branches -/
-theorem strToken_patternLiteral (pr : Char → Bool) (p rest : List Char)
+theorem strToken_patternLiteral (pr : Char → Bool) (hpr : printableOK pr = true) (p rest : List Char)
     (h1 : rest.head? ≠ some '\'') (h2 : rest.head? ≠ some '"') :
     strToken (patternLiteral pr p ++ rest) = some (p, rest) := by
   unfold patternLiteral
   split
   · rename_i h
-    have := litRaw_plain (q := '\'') (t := ctrlKeys) (by decide) p rest h h1
+    have := litRaw_plain (q := '\'') (t := []) (by decide) p rest (rawSafe_of_patternRawOK hpr p h) h1
     simp only [List.cons_append, strToken, true_or, if_true]
     simpa using this
   · have hr := repr_roundtrip pr p rest (by
@@ -153,5 +156,155 @@ theorem strToken_patternLiteral (pr : Char → Bool) (p rest : List Char)
         simp [Dcg.Py.Repr.reprStr, h]
       rw [hne] at hr ⊢
       simpa [strToken] using hr
+
+/-! ### Line boundaries -/
+
+/-- the characters at which Python's `str.splitlines` splits (Objects/unicodeobject.c
+`_PyUnicode_IsLinebreak`: LF, VT, FF, CR, FS, GS, RS, NEL, LINE SEPARATOR, PARAGRAPH SEPARATOR) —
+isort and black cut the module into lines there -/
+def lineBoundaries : List Char :=
+  [10, 11, 12, 13, 28, 29, 30, 0x85, 0x2028, 0x2029].map Char.ofNat
+
+/-- `pr` calls no line boundary printable (decidable for a concrete `pr`) -/
+def noBoundaryPrintable (pr : Char → Bool) : Bool := lineBoundaries.all (fun b => !pr b)
+
+theorem not_boundary_of_printable {pr : Char → Bool} (hpr : noBoundaryPrintable pr = true) {c : Char}
+    (h : pr c = true) : c ∉ lineBoundaries := by
+  intro hm
+  simp only [noBoundaryPrintable, List.all_eq_true, Bool.not_eq_true'] at hpr
+  have := hpr c hm
+  rw [h] at this; cases this
+
+/-- every character of a raw-branch literal is `r`, the quote, or a printable character of the pattern -/
+theorem mem_patternLiteral_raw {pr : Char → Bool} {p : List Char} (h : patternRawOK pr p = true)
+    {c : Char} (hc : c ∈ patternLiteral pr p) : c = 'r' ∨ c = '\'' ∨ pr c = true := by
+  unfold patternLiteral at hc
+  rw [if_pos h] at hc
+  simp only [patternRawOK, Bool.and_eq_true, List.all_eq_true] at h
+  simp only [List.mem_cons, List.mem_append, List.not_mem_nil, or_false] at hc
+  rcases hc with (rfl | rfl | hc) | rfl
+  · exact Or.inl rfl
+  · exact Or.inr (Or.inl rfl)
+  · exact Or.inr (Or.inr (h.2 c hc))
+  · exact Or.inr (Or.inl rfl)
+
+/-- hex digits are `0-9a-f` -/
+theorem hexK_not_boundary (k n : Nat) : ∀ c ∈ hexK k n, c ∉ lineBoundaries := by
+  intro c hc
+  simp only [hexK, List.mem_map] at hc
+  obtain ⟨d, hd, rfl⟩ := hc
+  have hlt : d < 16 := by
+    induction k generalizing n with
+    | zero => simp [hexDigits] at hd
+    | succ k ih =>
+      simp only [hexDigits, List.mem_append, List.mem_singleton] at hd
+      rcases hd with hd | rfl
+      · exact ih _ hd
+      · omega
+  have : ∀ d, d < 16 → hexDigit d ∉ lineBoundaries := by decide
+  exact this d hlt
+
+/-- what `repr` writes for one character holds no line boundary when `pr` calls none printable -/
+theorem reprChar_not_boundary {pr : Char → Bool} (hpr : noBoundaryPrintable pr = true) (q : Char)
+    (hq : q ∉ lineBoundaries) (c : Char) : ∀ x ∈ reprChar pr q c, x ∉ lineBoundaries := by
+  intro x hx
+  unfold reprChar at hx
+  have hbs : ('\\' : Char) ∉ lineBoundaries := by decide
+  have hxx : ('x' : Char) ∉ lineBoundaries := by decide
+  split at hx
+  · rename_i h
+    simp only [List.mem_cons, List.not_mem_nil, or_false] at hx
+    rcases hx with rfl | rfl
+    · exact hbs
+    · rcases h with rfl | rfl
+      · exact hq
+      · exact hbs
+  · split at hx
+    · simp only [List.mem_cons, List.not_mem_nil, or_false] at hx
+      rcases hx with rfl | rfl <;> decide
+    · split at hx
+      · simp only [List.mem_cons, List.not_mem_nil, or_false] at hx
+        rcases hx with rfl | rfl <;> decide
+      · split at hx
+        · simp only [List.mem_cons, List.not_mem_nil, or_false] at hx
+          rcases hx with rfl | rfl <;> decide
+        · split at hx
+          · simp only [List.mem_cons] at hx
+            rcases hx with rfl | rfl | hx
+            · exact hbs
+            · exact hxx
+            · exact hexK_not_boundary _ _ x hx
+          · rename_i hctl
+            split at hx
+            · rename_i hlt
+              simp only [List.mem_singleton] at hx
+              subst hx
+              intro hm
+              simp only [lineBoundaries, List.map_cons, List.map_nil, List.mem_cons,
+                List.not_mem_nil, or_false] at hm
+              rcases hm with rfl | rfl | rfl | rfl | rfl | rfl | rfl | rfl | rfl | rfl <;>
+                simp_all (config := { decide := true })
+            · split at hx
+              · rename_i hp
+                simp only [List.mem_singleton] at hx
+                subst hx
+                exact not_boundary_of_printable hpr hp
+              · split at hx
+                · simp only [List.mem_cons] at hx
+                  rcases hx with rfl | rfl | hx
+                  · exact hbs
+                  · exact hxx
+                  · exact hexK_not_boundary _ _ x hx
+                · split at hx
+                  · simp only [List.mem_cons] at hx
+                    rcases hx with rfl | rfl | hx
+                    · exact hbs
+                    · decide
+                    · exact hexK_not_boundary _ _ x hx
+                  · simp only [List.mem_cons] at hx
+                    rcases hx with rfl | rfl | hx
+                    · exact hbs
+                    · decide
+                    · exact hexK_not_boundary _ _ x hx
+
+/-- **No line boundary in the written literal, either branch.** -/
+theorem patternLiteral_no_line_boundary {pr : Char → Bool} (hpr : noBoundaryPrintable pr = true)
+    (p : List Char) : ∀ c ∈ patternLiteral pr p, c ∉ lineBoundaries := by
+  intro c hc
+  by_cases h : patternRawOK pr p = true
+  · rcases mem_patternLiteral_raw h hc with rfl | rfl | hp
+    · decide
+    · decide
+    · exact not_boundary_of_printable hpr hp
+  · unfold patternLiteral at hc
+    rw [if_neg h] at hc
+    have hq : reprQuote p ∉ lineBoundaries := by
+      rcases reprQuote_cases p with h | h <;> rw [h] <;> decide
+    simp only [Dcg.Py.Repr.reprStr, List.mem_cons, List.mem_append, List.mem_flatMap,
+      List.not_mem_nil, or_false] at hc
+    rcases hc with (rfl | ⟨a, _, hx⟩) | rfl
+    · exact hq
+    · exact reprChar_not_boundary hpr _ hq a c hx
+    · exact hq
+
+/-! ### CPython's `str.isprintable` (generated table) -/
+
+/-- `c.isprintable()` of the running CPython: the complement of `Gen/Printable.nonPrintable`
+(regenerated from the interpreter on every run by `vlib/translate/printable.py`; the driver handler
+`patlit.cpython` uses it, so the campaign `patlit.text` compares table AND rule with the real function) -/
+def cpythonPrintable (c : Char) : Bool := !Dcg.Py.Chars.inRanges Dcg.Gen.Printable.nonPrintable c.toNat
+
+/-- **The hypothesis of `pattern_literal_one_token` is necessary**: for EVERY predicate that calls
+one of LF / CR / NUL printable there is a pattern whose written literal is not one token. -/
+theorem printableOK_necessary (pr : Char → Bool) (h : printableOK pr = false) :
+    ∃ p, strToken (patternLiteral pr p ++ [')']) ≠ some (p, [')']) := by
+  have : ∃ b ∈ rawBreakers, pr b = true := by
+    simp only [printableOK, List.all_eq_false, Bool.not_eq_true', Bool.not_eq_false] at h
+    simpa using h
+  obtain ⟨b, hb, hp⟩ := this
+  refine ⟨[b], ?_⟩
+  simp only [rawBreakers, List.mem_cons, List.not_mem_nil, or_false] at hb
+  rcases hb with rfl | rfl | rfl <;>
+    simp [patternLiteral, patternRawOK, quoteFreePaired, hp, strToken, litRaw, scanRaw, unitRaw]
 
 end Dcg.Proofs.PatternLit
